@@ -106,7 +106,7 @@ def run(ctx):
                        (3, 3, 3, 6, [1], ["go"], False, True, False, 300, 2, (1, 256))]
     jobs, labels = [], []
     for c in ctx.pick(tiny_q, tiny_t):
-        jobs.append(dict(module="SimWhole", cfg_text=sw_cfg(*c, invs=INV), workers=4, coverage=True, timeout=3000))
+        jobs.append(dict(module="SimWhole", cfg_text=sw_cfg(*c, invs=INV), workers=4, timeout=3000))
         labels.append("SimWhole exhaustive K=%d chunk=%d trading=%d minutes=%d qtys=%s modes=%s two=%s wrong=%s edits=%s start=%d lev=%d fee=%s" % c)
     res = tlc.run_parallel(jobs, max_procs=4)
     for r, lab in zip(res, labels):
@@ -114,7 +114,7 @@ def run(ctx):
         if r.violation:
             raise Machinery("%s violates %s\n%s" % (lab, r.violation["name"], r.violation["trace"][-4000:]))
     probes = [("ProbeTrade", [2], ["go"], False, False, 300), ("ProbeReject", [2], ["go"], False, False, 200),
-              ("ProbeIncrease", [1], ["open"], True, False, 300), ("ProbeInvalid", [1], ["go"], False, True, 300)]
+              ("ProbeIncrease", [1], ["rel"], True, False, 300), ("ProbeInvalid", [1], ["go"], False, True, 300)]
     pres = tlc.run_parallel([dict(module="SimWhole", cfg_text=sw_cfg(3, 1, 1, 3, q, md, two, False, ed, st, 1, (1, 64), [p]),
                                   workers=2, timeout=900) for (p, q, md, two, ed, st) in probes], max_procs=4)
     probes = [p[0] for p in probes]
